@@ -12,7 +12,9 @@ from ..core import Ctx, REPO
 from ..gen.project import Gen, Knobs, Unit
 
 THEOREMS = ["Schedule.process_terminates_drains", "Schedule.state_order_independent", "Schedule.one_bad_file",
-            "Schedule.exit_status_range", "Schedule.exit_status_three_iff", "Schedule.exit_status_two_iff"]
+            "Schedule.exit_status_range", "Schedule.exit_status_three_iff", "Schedule.exit_status_two_iff",
+            "Schedule.acyclic_sees_final", "Schedule.body_view_acyclic", "Schedule.body_view_order_independent",
+            "Schedule.cyclic_sees_unfinished"]
 RULE = ("generated projects (cross-module bases, star imports, __all__ re-exports, import cycles, unparsable files) analysed "
         "under every reachable processing order for small projects (package first, its modules in any order, roots in any "
         "order; sampled beyond 120 orders). (a) the real processModule/getProcessedModule call log of every order is "
@@ -25,7 +27,10 @@ RULE = ("generated projects (cross-module bases, star imports, __all__ re-export
 ASSUMPTIONS = ["which modules a body asks for (getProcessedModule targets) is a function of the source text alone; read from a reference run",
                "for projects with import cycles only the class hierarchy (bases, linearisations) is required to agree, as the property says"]
 PARTIAL = {"Schedule.order_independent(documented objects)": "the theorems cover the scheduler (drain, once, final state, "
-           "independent of the order); equality of the documented objects across orders is decided by the direct oracle"}
+           "independent of the order) and, for acyclic projects, that every module body obtains each imported module in its "
+           "final state and therefore observes the same sequence under every order (body_view_order_independent); that the "
+           "documented objects are a function of those observations (no other cross-module state: re-export moves, late "
+           "base resolution) is decided by the direct oracle"}
 
 
 class SchedRec:
@@ -569,6 +574,17 @@ def run(ctx: Ctx) -> None:
                 states = "".join({"UNPROCESSED": "U", "PROCESSING": "G", "PROCESSED": "D"}[m.state.name] for m in mods)
                 impls.append("ok " + " ".join(rec.log) + " | " + states + " | " + (",".join(str(rec.ids[id(m)]) for m in s.unprocessed_modules) or "-"))
                 pay.append({"units": src, "order": od})
+            # direct oracle (acyclic projects): every import obtained its target in the state that module ends in
+            if not cyc:
+                for ev in rec.log:
+                    if ev.startswith("sees"):
+                        tgt = int(ev[4:-1].split(">")[1])
+                        want = "D" if parses[tgt] else "G"
+                        if ev[-1] != want:
+                            ctx.fail("acyclic-import-saw-unfinished-module", {"units": src, "order": od},
+                                     f"{ev}: module {units[tgt].qname} was obtained in state {ev[-1]}, it ends in {want}")
+                            break
+                ctx.count("acyclic-orders-checked-for-final-state-imports")
             # direct oracle: scheduler facts
             if s.unprocessed_modules:
                 ctx.fail("not-drained", {"units": src, "order": od}, "unprocessed_modules not empty after process()")
